@@ -13,7 +13,7 @@ CHECKS = {
              "algorithm equals the textbook definition in exact rational arithmetic, and emits one behaviour per transition; every behaviour, "
              "and seeded scripted streams for periods up to 1024 and runs of 9 000-70 000 inputs, is replayed into the real crate at 10-45 "
              "price units and compared with the exact expectation under the property's own tolerance; the shortest models also contain 10^6 and 10^8 spikes and "
-             "reset followed by fresh continuations from every reachable state.",
+             "reset followed by fresh continuations from every reachable state. Also: one instance per period 6..40 (6..80), Bollinger multipliers 10^6 and 10^9 (the middle band is held to tau*M without multiplier slack), and instances deserialized from the checkpoint of a fresh / just-reset one.",
         note="Inputs are affine images of small-integer lattices, not arbitrary doubles; TLC's exact arithmetic is limited to 32-bit "
              "integers; TLC, the Json community module, serde_json and the comparison code of the harness are trusted.",
         technique=TECH + "every transition of the closed state graph replayed into the real crate and compared with TLC's exact rational expectation",
@@ -34,7 +34,7 @@ CHECKS = {
              "exhaustive models of RSI (four seed/unit pairs), SLOW_STOCH, PPO and OBV, with a bar alphabet in which close differs from (high+low)/2, "
              "typical prices repeat and volume is 0/1/2; the transcribed algorithms are checked equal to the documented formulas on every state, and "
              "every transition plus seeded streams for periods up to 512 and runs of 9 000-30 000 bars is replayed into the real crate and compared "
-             "under tau(t)*c*scale with the condition number c supplied by the specification.",
+             "under tau(t)*c*scale with the condition number c supplied by the specification. The lemma RsiFlat (an unchanged price leaves RSI unchanged while U+D is not zero) is model-checked and licenses the relational clause applied to flat runs far longer than the 32-bit rationals can follow.",
         note="Steps with a zero reference denominator or c > 1e6 are skipped and counted (they are C08's); expectations that hinge on a tie between "
              "derived sums are only compared at exact (power-of-two) price units; inputs are affine images of integer lattices.",
         technique=TECH + "every transition of closed / depth-bounded state graphs replayed against exact rational expectations with spec-supplied condition numbers",
@@ -56,7 +56,7 @@ CHECKS = {
              "continuations; a seeded multi-threaded driver additionally records a trace of the real crate on 16 threads which TLC validates against TaTrace.tla; "
              "clone_from into live instances of the same and of another period and separately constructed twins with longer windows are included; "
              "the behaviours are executed on 16 real threads and any two real instances with the same configuration and literal history must "
-             "return bit-identical outputs -- within a behaviour, across behaviours and across threads -- and equal the specification's value.",
+             "return bit-identical outputs -- within a behaviour, across behaviours and across threads -- and equal the specification's value. A signed-zero price unit (lattice 0 fed as -0.0 on odd calls) exposes tie-breaking between equal zeros, and the MXCSR control bits are read around every call (a call that changes the thread's floating-point environment has created hidden thread-local state).",
         note="Thread schedules are observed, not controlled; instances are never shared between threads (the API needs &mut self).",
         technique=TECH + "all interleavings of short multi-instance op sequences replayed on 16 threads with a cross-behaviour determinism map keyed by configuration and history",
         ref="6 (C05)"),
@@ -82,7 +82,7 @@ CHECKS = {
              "price levels (zero-volume stretches at moving prices for MFI/OBV, and flat from the start after reset); plus seeded activity followed by flat stretches of "
              "1 500-5 000 bars (long enough for exponential averages to underflow); wherever the specification marks the window degenerate the real output must be "
              "finite, inside its documented range and equal to the neutral value where one is defined (FAST_STOCH 50, CCI 0, ROC 0, TR 0 exactly; MAD, SD and band "
-             "widths within the stated margins), at dyadic and non-dyadic price units.",
+             "widths within the stated margins), at dyadic and non-dyadic price units (cents and 1e-3 included); one-price bars and scalars alternating on one instance inside the flat stretch; and a sweep over 150 (600) seeded flat price levels per kind with an exact neutral value.",
         note="Degeneracy is decided by the specification on the lattice; a CCI window that is flat only through a tie of different bars is compared at exact units only.",
         technique=TECH + "flat continuations explored from every reachable model state and long flat scripted stretches, neutral / finite / range expectations from the spec",
         ref="6 (C08)"),
@@ -107,7 +107,7 @@ CHECKS = {
         text="TLC explores every sequence up to depth 4 (5) over ordinary values, NaN, +-inf, +-f64::MAX, a subnormal, -0.0, reset and inconsistent bars (also through the bar path of kinds that have both paths) for each kind "
              "and period 1..2 (1..3), and executes scripted runs of 3*period+3 calls for every period 1..64 (plus sampled up to 4096) with faults injected at varying "
              "cursor positions followed by reset and reuse; the spec invariant Safe (every ring index and counter in bounds in the transcribed algorithm) holds on "
-             "all of them, and in the real crate -- built with overflow checks and debug assertions -- next, reset, clone, Display, Debug, bincode and serde_json "
+             "all of them, and in the real crate -- built with overflow checks and debug assertions -- next, reset, clone, reset / next of a copy while the original and a second copy are alive, Display, Debug, bincode and serde_json "
              "must return normally after every op (catch_unwind); the index invariant of the ring cursor / counters is proved for EVERY period by TLAPS "
              "(spec/Cursor.tla, 17 obligations) and a trace of the real crate recorded by a fault-injecting driver on 8 threads is validated by TLC against TaTrace.tla.",
         note="Absence of panic and termination are what is observed; the cursor invariant for arbitrary periods is additionally stated in spec/Cursor.tla.",
